@@ -123,7 +123,7 @@ impl Check for GrHelper {
                 1 => ops.push(jarr!["wd", rng.below(2), rng.below(4)]),
                 2 => {
                     // session drop, by reason
-                    let kind = *rng.pick(&["fin", "rst", "fin", "silent", "notif-cease", "notif-hard", "notif-other", "dut-shutdown", "dut-disable", "dut-reset", "malformed", "bfd-down"]);
+                    let kind = *rng.pick(&["fin", "rst", "fin", "silent", "notif-cease", "notif-hard", "notif-other", "dut-shutdown", "dut-disable", "dut-reset", "malformed", "bfd-down", "dut-stop-gr"]);
                     ops.push(jarr!["down", kind, *rng.pick(&[2u64, 4, 6, 8])]);
                 }
                 3 => ops.push(jarr!["up", draw_caps(&mut rng)]),
@@ -163,7 +163,7 @@ impl Check for GrHelper {
 
     fn info(&self) -> CheckInfo {
         CheckInfo {
-            rule: "one GR/LLGR-configured neighbour (family sets, N-bit, restart 5/30/120 s, LLGR 10/60/600 s drawn per run) on a real session; history of announce/withdraw (some with NO_LLGR), drops by FIN / RST / silence->hold expiry / received Cease, hard-reset and non-Cease NOTIFICATIONs / operator shutdown, disable, hard reset, delete (and configure again), StopBgp (and StartBgp, configure again) / malformed UPDATE / the BFD session towards the neighbour going down (silent close by the event loop), reconnects with the same, fewer or no GR/LLGR families, attempts that fail at OPEN or die before/after Established, End-of-RIB per family, waits of 10-250% of each timer. Invariants at every quiescent point, read from PeerContext and the RIB: (I1) a retained path (stale, LLGR-stale, or from an earlier session) implies restart timer armed, LLGR timer armed for its family, or EOR awaited on the live session; (I2) after a drop no path of a family outside the negotiated GR/LLGR sets remains; (I3) what the live session announced is in the RIB; (I4) hard reset / admin shutdown / non-Cease error leave nothing behind; (I5) no NO_LLGR path is LLGR-stale; (I6) TCP failure with GR keeps and stales the routes; bounded liveness after the last fault. non-trivial = some path was retained across a session drop".into(),
+            rule: "one GR/LLGR-configured neighbour (family sets, N-bit, restart 5/30/120 s, LLGR 10/60/600 s drawn per run) on a real session; history of announce/withdraw (some with NO_LLGR), drops by FIN / RST / silence->hold expiry / received Cease, hard-reset and non-Cease NOTIFICATIONs / operator shutdown, disable, hard reset, delete (and configure again), StopBgp (and StartBgp, configure again) / malformed UPDATE / the BFD session towards the neighbour going down (silent close by the event loop) / StopBgp with allow_graceful_restart on a live session, reconnects with the same, fewer or no GR/LLGR families, attempts that fail at OPEN or die before/after Established, End-of-RIB per family, waits of 10-250% of each timer. Invariants at every quiescent point, read from PeerContext and the RIB: (I1) a retained path (stale, LLGR-stale, or from an earlier session) implies restart timer armed, LLGR timer armed for its family, or EOR awaited on the live session; (I2) after a drop no path of a family outside the negotiated GR/LLGR sets remains; (I3) what the live session announced is in the RIB; (I4) hard reset / admin shutdown / non-Cease error leave nothing behind; (I5) no NO_LLGR path is LLGR-stale; (I6) TCP failure with GR keeps and stales the routes; bounded liveness after the last fault. non-trivial = some path was retained across a session drop".into(),
             components_real: vec!["PeerSession::{run,session_loop}, apply_disconnect, gr_on_disconnect, families_to_drop_on_disconnect, gr_restart_timer_expired, llgr_timer_expired, spawn_llgr_timers, process_effects".into(), "gr::GrState".into(), "TableManager::{unregister_peer,drop_stale_families,mark_llgr_stale,drop_llgr_stale_families}, table::Table".into(), "GrpcService::{shutdown_peer,disable_peer,enable_peer,reset_peer}".into()],
             components_stubbed: vec!["TCP, clock, listener loop, the restarting peer (scripted)".into()],
             assumptions: vec!["timer 'armed' = oneshot sender present and its task alive (Sender::is_closed() == false)".into(), "1 s slack on bounded liveness".into()],
@@ -179,7 +179,7 @@ fn down_reason_class(kind: &str) -> &'static str {
         "notif-cease" => "cease-received",
         "notif-hard" => "hard-reset-received",
         "notif-other" => "non-cease-received",
-        "dut-shutdown" | "dut-disable" => "admin-shutdown",
+        "dut-shutdown" | "dut-disable" | "dut-stop-gr" => "admin-shutdown",
         "dut-reset" => "operator-hard-reset",
         "bfd-down" => "bfd-session-down",
         "malformed" => "local-error-notification",
@@ -388,6 +388,18 @@ async fn run(case: Json, tol: Tolerate) -> Outcome {
                     }
                     "dut-reset" => {
                         let _ = t.w.grpc.reset_peer(tonic::Request::new(api::ResetPeerRequest { address: addr.to_string(), soft: false, ..Default::default() })).await;
+                    }
+                    "dut-stop-gr" => {
+                        // StopBgp with allow_graceful_restart: the speaker goes away without a NOTIFICATION
+                        // so that its neighbours keep its routes; on its own side this is an administrative
+                        // shutdown and nothing of the neighbour may be kept
+                        if let Some(p) = t.w.global.read().await.peers.get(&addr) {
+                            orphans.push(p.context.clone());
+                        }
+                        let _ = t.w.grpc.stop_bgp(tonic::Request::new(api::StopBgpRequest { allow_graceful_restart: true })).await;
+                        m.admin_down = true;
+                        deleted = true;
+                        stopped = true;
                     }
                     "bfd-down" => {
                         // the BFD session towards the neighbour goes down: the event loop closes the
